@@ -65,6 +65,18 @@ impl Rec {
     }
 }
 
+impl Rec {
+    /// largest term of any log id mentioned by this record (entries, purge/truncate points, snapshot fields)
+    pub fn max_term(&self) -> u64 {
+        match self {
+            Rec::Vote(_) => 0,
+            Rec::Append(id, _) | Rec::Commit(id) | Rec::Purge(id) => id.0,
+            Rec::TruncateAfter(id) => id.map(|i| i.0).unwrap_or(0),
+            Rec::State(s) => [s.last, s.committed, s.purged].iter().map(|x| x.map(|i| i.0).unwrap_or(0)).max().unwrap_or(0),
+        }
+    }
+}
+
 #[derive(Clone, Debug, PartialEq, Eq)]
 pub enum Reject {
     VoteBackwards,
